@@ -111,6 +111,9 @@ VARIANTS.append(("quad", "leggauss", "pure", "large"))
 #   debug   : every event inside xitorch.enable_debug() (the debug-mode pre-checks and wrappers run)
 for _fn, _m in list(VARY_FIRST.items()) + [("solve_ivp", "rk45"), ("solve_ivp", "rk23"), ("rootfinder", "newton")]:
     VARIANTS.append((_fn, _m, {"solve": "mfree", "symeig": "mfree", "svd": "mfree"}.get(_fn, "edmod"), "debug"))
+#   anomaly : every event inside torch.autograd.detect_anomaly() (code that is only active in that mode)
+for _fn, _m in list(VARY_FIRST.items()) + [("symeig", "custom_exacteig"), ("solve", "custom_exactsolve")]:
+    VARIANTS.append((_fn, _m, {"solve": "mfree", "symeig": "mfree", "svd": "mfree"}.get(_fn, "edmod"), "anomaly"))
 #   zeroB   : solve with an exactly zero right-hand side (the shortcut that answers X = 0 without iterating)
 #   jacA    : solve whose operator A is ONE long-lived Jacobian operator (xitorch.grad.jac of an EditableModule
 #             method) created before the baseline census: whatever a call or its backward pass allocates must not
@@ -119,6 +122,13 @@ for _m in ("cg", "bicgstab", "gmres", "custom_exactsolve"):
     VARIANTS.append(("solve", _m, "mfree", "zeroB"))
 for _m in ("bicgstab", "gmres", "custom_exactsolve"):
     VARIANTS.append(("solve", _m, "mfree", "jacA"))
+#   cutoff  : iterations cut off by maxiter = 2 (every call ends with a ConvergenceWarning): the path that reports
+#             non-convergence must not keep the function, its object or its tensors
+for _fn in ("rootfinder", "equilibrium", "minimize"):
+    for _m in ("newton", "broyden1", "broyden2", "linearmixing"):
+        for _k in ("edmod", "nnmod"):
+            VARIANTS.append((_fn, _m, _k, "cutoff"))
+VARIANTS.append(("solve", "broyden1", "mfree", "cutoff"))
 VARIANTS.append(("symeig", "davidson", "mfree", "raises"))
 VARIANTS.append(("symeig", "davidson", "dense", "raises"))
 
@@ -193,6 +203,8 @@ class World:
         self.fwd = _opts(fn, m)
         if var == "maxrank":
             self.fwd["max_rank"] = 3
+        elif var == "cutoff":
+            self.fwd["maxiter"] = 2         # the iterations are cut off: every call ends with a ConvergenceWarning
         elif var == "singE":
             sc = self.sc
             sc.a = torch.diag(torch.tensor([1.0, 2.0, 3.0], dtype=sc.a.dtype)).requires_grad_()
@@ -253,6 +265,7 @@ class World:
                 self.fwd["n"] = 300
         self.vary = var == "vary"
         self.debug = var == "debug"
+        self.anomaly = var == "anomaly"
         # (harness tensors are created here, before the baseline census)
         self.base = [l.detach().clone() for l in self.sc.leaves] if self.vary else None
         if fn == "mcquad":
@@ -261,6 +274,10 @@ class World:
         self.R = [torch.randn(l.shape, dtype=l.dtype, generator=g) for l in self.sc.leaves]
 
     def run(self, ev):
+        if self.anomaly:
+            # torch's anomaly detection (a debugging aid of the caller) switched on around every event
+            with torch.autograd.detect_anomaly(check_nan=False):
+                return self._run(ev)
         if self.debug:
             import xitorch
             with xitorch.enable_debug():
